@@ -49,6 +49,7 @@ def replay(case):
 def run(ck: Check) -> int:
     from bounded import C01_gen as G
     from props.C01 import run_engine
+    from props import C01_I
     import pytezos  # noqa: F401
     from pytezos.michelson.instructions.control import MapInstruction, IterInstruction
     from pytezos.michelson.micheline import MichelineSequence
@@ -63,6 +64,7 @@ def run(ck: Check) -> int:
                   (OrType.__dict__['from_right'], 'OrType.from_right'), (PairType.__dict__['from_comb'], 'PairType.from_comb'),
                   (MichelsonType.__dict__['as_micheline_expr'], 'MichelsonType.as_micheline_expr')):
         ck.function(f, name='pytezos.michelson:' + nm)
+    C01_I.run_I_types(ck)        # deductive part: class (constructor + component types) of every value produced by the real execute methods
     ck.assume('static types are those of the reference typechecker specs/michelson_ref.py (validated with the reference semantics '
               'against the recorded Octez tuples, see C01)')
     ck.trust('specs/michelson_ref.py (typing rules), bounded/C01_gen.py, bounded/C01_engine.py')
@@ -73,6 +75,10 @@ def run(ck: Check) -> int:
     ck.bound('type_shapes', len(G.SHAPES))
     run_engine(ck, themes, cfg, 'C02', REPLAY)
     ck.exhaustive = False
-    return ck.finish('exploration',
-                     'R (bounded): run-time type of every final stack slot (and of the FAILWITH value / run_code storage) equals the static '
+    return ck.finish('other',
+                     'P/S (PyVC on the real execute methods, props/C01_I.py): the class of every value produced by CAR CDR PAIR UNPAIR PAIR n UNPAIR n GET n '
+                     'UPDATE n LEFT RIGHT CONS NIL SOME NONE EMPTY_SET EMPTY_MAP GET MEM UPDATE GET_AND_UPDATE IF_NONE IF_LEFT IF_CONS LOOP_LEFT ITER MAP SIZE '
+                     'EQ..GE UNIT — constructor and component types, annotations ignored — equals the Michelson typing rule applied to the OPAQUE operand '
+                     'types (all types; combs / collections up to the stated size; the new element of UPDATE n and the body result of MAP have their own '
+                     'opaque types).  R (bounded): run-time type of every final stack slot (and of the FAILWITH value / run_code storage) equals the static '
                      'type assigned by the reference typing rules, on type-directed programs over collections with composite keys and elements')
